@@ -206,3 +206,18 @@ func TestRacyCacheReported(t *testing.T) {
 	}
 	t.Logf("races reported: %d", RaceErrors()-before)
 }
+
+func TestFastGoid(t *testing.T) {
+	if goidOffset == 0 {
+		t.Fatalf("goid offset calibration failed")
+	}
+	for i := 0; i < 50; i++ {
+		done := make(chan [2]uint64)
+		go func() { done <- [2]uint64{goid(), goidSlow()} }()
+		v := <-done
+		if v[0] != v[1] || v[0] == 0 {
+			t.Fatalf("fast goid %d != slow goid %d", v[0], v[1])
+		}
+	}
+	t.Logf("goid offset %d", goidOffset)
+}
